@@ -48,14 +48,27 @@ def run_variant(job):
     n_steps = case["N"]
     k = case["K"]
     a = case["A"]
-    s1, s2 = case["sh"]
+    shifts = list(case["sh"])
+    s1, s2 = shifts[0], shifts[1]
+    periodic2 = len(shifts) == 2
     dt = var.get("dt", 0.25)
     start = var.get("start", 0.0)
     omega0 = 0.7
     ncell = 2 * n_steps + 4
-    weights = probes.probe_weights(seed, ncell)
     log = []
-    sd = probes.make_probe_sd(weights, dt, log=log)
+    if var.get("bath") == "customcorr":
+        # the library's own CustomCorrelations (2D quadrature of a user correlation function) with a
+        # polynomial C(tau): the cell integrals are second differences of F, F'' = C, F(0) = F'(0) = 0
+        import oqupy as _oq
+        sc = 2e-3 / dt ** 2
+        a0, a1, a2 = (0.8 + 0.3j) * sc, (-0.5 + 0.2j) * sc / dt, (0.1 - 0.1j) * sc / dt ** 2
+        fpoly = lambda x: a0 * x ** 2 / 2 + a1 * x ** 3 / 6 + a2 * x ** 4 / 12
+        lat = np.array([fpoly(c * dt) for c in range(ncell + 2)])
+        weights = np.array([lat[1]] + [lat[c + 1] - 2 * lat[c] + lat[c - 1] for c in range(1, ncell)])
+        sd = _oq.CustomCorrelations(lambda tau: a0 + a1 * tau + a2 * tau ** 2)
+    else:
+        weights = probes.probe_weights(seed, ncell)
+        sd = probes.make_probe_sd(weights, dt, log=log)
 
     rot_kind = var.get("rot", "id")
     if rot_kind == "haar":
@@ -68,12 +81,14 @@ def run_variant(job):
     if rot_kind == "id":
         coupling = np.diag(np.array(case["o"], dtype=float))
 
-    commuting = (s1 == 0 and s2 == 0)
+    commuting = all(x == 0 for x in shifts)
     energies = omega0 * np.array(EN[:d], dtype=float) if commuting else None
-    sysmode = var.get("sysmode", "static" if s1 == s2 else "td")
+    sysmode = var.get("sysmode", "static" if (periodic2 and s1 == s2) else "td")
+    if not (periodic2 and s1 == s2) and sysmode == "static":
+        sysmode = "td"
     calls = []
     system = probes.clock_system(sysmode, d, s1, s2, dt, start, energies=energies,
-                                 rot=None if rot_kind == "id" else rot, calls=calls)
+                                 rot=None if rot_kind == "id" else rot, calls=calls, shifts=shifts)
 
     calls.clear()       # drop the calls made by the constructor's dimension probe
     kw = {}
@@ -92,7 +107,7 @@ def run_variant(job):
     end_time = start + n_steps * dt + 0.25 * dt       # off-grid end: floor is unambiguous
     method = var.get("method")
     try:
-        params = oqupy.TempoParameters(dt=dt, epsrel=1e-15,
+        params = oqupy.TempoParameters(dt=dt, epsrel=1e-15 if var.get("bath") != "customcorr" else 1e-12,
                                        subdiv_limit=var.get("subdiv", None), **kw)
         bath = oqupy.Bath(coupling, sd)
         if method == "mf":
@@ -153,7 +168,7 @@ def run_variant(job):
     for r in want_reqs:
         if r not in seenw:
             seenw.append(r)
-    if got_reqs != seenw:
+    if var.get("bath") != "customcorr" and got_reqs != seenw:
         mismatch.append({"what": "requests", "expected": seenw, "observed": got_reqs})
     # times handed to the user's H(t): the sampling pattern of each step (binds system.py
     # get_propagators and the start_time both methods use)
